@@ -40,8 +40,6 @@ type family struct {
 	nogc   bool                                          // too big for a gc batch: analytic expectation only
 }
 
-const modulus = 1000003
-
 func around(points []int, lo, hi int) []int {
 	set := map[int]bool{}
 	for _, p := range points {
@@ -70,12 +68,12 @@ func regFamily(kind string, ns []int) family {
 			}
 			b.WriteString("\tt := 0\n")
 			for i := 1; i <= n; i++ {
-				fmt.Fprintf(&b, "\tt = (t*31 + v%d) %% %d\n", i, modulus)
+				fmt.Fprintf(&b, "\tt = t*31 + v%d\n", i)
 			}
 			b.WriteString("\treturn t\n}\n")
 			t := 0
 			for i := 1; i <= n; i++ {
-				t = (t*31 + 1000 + i) % modulus
+				t = t*31 + 1000 + i
 			}
 			return b.String(), "f_§(1000)", fmt.Sprintf("%d\n", t)
 		case "float":
@@ -115,12 +113,12 @@ func regFamily(kind string, ns []int) family {
 			}
 			b.WriteString("\tt := 0\n")
 			for i := 1; i <= n; i++ {
-				fmt.Fprintf(&b, "\tt = (t*31 + v%d[0]) %% %d\n", i, modulus)
+				fmt.Fprintf(&b, "\tt = t*31 + v%d[0]\n", i)
 			}
 			b.WriteString("\treturn t\n}\n")
 			t := 0
 			for i := 1; i <= n; i++ {
-				t = (t*31 + 1000 + i) % modulus
+				t = t*31 + 1000 + i
 			}
 			return b.String(), "f_§(1000)", fmt.Sprintf("%d\n", t)
 		}
@@ -147,8 +145,8 @@ func families(tier string) []family {
 			call.WriteString(")")
 			t := 0
 			for i := 1; i <= n; i++ {
-				fmt.Fprintf(&b, "\tt = (t*31 + p%d) %% %d\n", i, modulus)
-				t = (t*31 + 1000 + i) % modulus
+				fmt.Fprintf(&b, "\tt = t*31 + p%d\n", i)
+				t = t*31 + 1000 + i
 			}
 			b.WriteString("\treturn t\n}\n")
 			return b.String(), call.String(), fmt.Sprintf("%d\n", t)
@@ -179,9 +177,9 @@ func families(tier string) []family {
 				}
 				s := fmt.Sprintf("k%d", i)
 				fmt.Fprintf(&b, "%q, ", s)
-				t = (t*31 + (i+1)*(len(s)+int(s[len(s)-1]))) % modulus
+				t = t*31 + (i+1)*(len(s)+int(s[len(s)-1]))
 			}
-			fmt.Fprintf(&b, "\n\t} {\n\t\tt = (t*31 + (i+1)*(len(s)+int(s[len(s)-1]))) %% %d\n\t}\n\treturn t\n}\n", modulus)
+			fmt.Fprintf(&b, "\n\t} {\n\t\tt = t*31 + (i+1)*(len(s)+int(s[len(s)-1]))\n\t}\n\treturn t\n}\n")
 			return b.String(), "f_§()", fmt.Sprintf("%d\n", t)
 		}},
 		{name: "general-constants", limit: 256, ns: around([]int{128, 256}, -4, 4), gen: func(n int) (string, string, string) {
@@ -193,9 +191,9 @@ func families(tier string) []family {
 					b.WriteString("\n\t\t")
 				}
 				fmt.Fprintf(&b, "%d, ", 1000+i)
-				t = (t*31 + (i+1)*(1000+i)) % modulus
+				t = t*31 + (i+1)*(1000+i)
 			}
-			fmt.Fprintf(&b, "\n\t} {\n\t\tt = (t*31 + (i+1)*v.(int)) %% %d\n\t}\n\treturn t\n}\n", modulus)
+			fmt.Fprintf(&b, "\n\t} {\n\t\tt = t*31 + (i+1)*v.(int)\n\t}\n\treturn t\n}\n")
 			return b.String(), "f_§()", fmt.Sprintf("%d\n", t)
 		}},
 		{name: "types", limit: 256, ns: around([]int{64, 85, 128, 256}, -4, 4), gen: func(n int) (string, string, string) {
@@ -204,8 +202,8 @@ func families(tier string) []family {
 			t := 0
 			for i := 1; i <= n; i++ {
 				// one block per type: the register of a is free again after it
-				fmt.Fprintf(&b, "\t{\n\t\ta := new([%d]int)\n\t\ta[%d] = x + %d\n\t\tt = (t*31 + a[%d] + len(a)) %% %d\n\t}\n", i, i-1, i, i-1, modulus)
-				t = (t*31 + 7 + i + i) % modulus
+				fmt.Fprintf(&b, "\t{\n\t\tvar a [%d]int\n\t\ta[%d] = x + %d\n\t\tt = t*31 + a[%d] + len(a)\n\t}\n", i, i-1, i, i-1)
+				t = t*31 + 7 + i + i
 			}
 			b.WriteString("\treturn t\n}\n")
 			return b.String(), "f_§(7)", fmt.Sprintf("%d\n", t)
@@ -218,8 +216,8 @@ func families(tier string) []family {
 			}
 			b.WriteString("func f_§(x int) int {\n\tt := 0\n")
 			for i := 1; i <= n; i++ {
-				fmt.Fprintf(&b, "\tt = (t*31 + g%d_§(x)) %% %d\n", i, modulus)
-				t = (t*31 + 5 + i) % modulus
+				fmt.Fprintf(&b, "\tt = t*31 + g%d_§(x)\n", i)
+				t = t*31 + 5 + i
 			}
 			b.WriteString("\treturn t\n}\n")
 			return b.String(), "f_§(5)", fmt.Sprintf("%d\n", t)
@@ -229,8 +227,8 @@ func families(tier string) []family {
 			t := 0
 			b.WriteString("func f_§(x int) int {\n\tt := 0\n")
 			for i := 1; i <= n; i++ {
-				fmt.Fprintf(&b, "\tt = (t*31 + func(y int) int { return x + y + %d }(%d)) %% %d\n", i, i, modulus)
-				t = (t*31 + 5 + i + i) % modulus
+				fmt.Fprintf(&b, "\tt = t*31 + func(y int) int { return x + y + %d }(%d)\n", i, i)
+				t = t*31 + 5 + i + i
 			}
 			b.WriteString("\treturn t\n}\n")
 			return b.String(), "f_§(5)", fmt.Sprintf("%d\n", t)
@@ -248,8 +246,8 @@ func families(tier string) []family {
 			b.WriteString("\tt := 0\n")
 			t := 0
 			for i := 0; i < n; i++ {
-				fmt.Fprintf(&b, "\tt = (t*31 + s.F%d) %% %d\n", i, modulus)
-				t = (t*31 + 9 + i) % modulus
+				fmt.Fprintf(&b, "\tt = t*31 + s.F%d\n", i)
+				t = t*31 + 9 + i
 			}
 			b.WriteString("\treturn t\n}\n")
 			return b.String(), "f_§(9)", fmt.Sprintf("%d\n", t)
@@ -259,8 +257,8 @@ func families(tier string) []family {
 			b.WriteString("func f_§(x int) int {\n\tt := 0\n")
 			t := 0
 			for i := 0; i < n; i++ {
-				fmt.Fprintf(&b, "\tt = (t*31 + p.F%d(x)) %% %d\n", i, modulus)
-				t = (t*31 + 5 + i) % modulus
+				fmt.Fprintf(&b, "\tt = t*31 + p.F%d(x)\n", i)
+				t = t*31 + 5 + i
 			}
 			b.WriteString("\treturn t\n}\n")
 			return b.String(), "f_§(5)", fmt.Sprintf("%d\n", t)
@@ -280,9 +278,9 @@ func families(tier string) []family {
 					b.WriteString("\n\t\t")
 				}
 				fmt.Fprintf(&b, "%d, ", 100000+i)
-				t = (t*31 + (i%97+1)*(100000+i)) % modulus
+				t = t*31 + (i%97+1)*(100000+i)
 			}
-			fmt.Fprintf(&b, "\n\t} {\n\t\tt = (t*31 + (i%%97+1)*v) %% %d\n\t}\n\treturn t\n}\n", modulus)
+			fmt.Fprintf(&b, "\n\t} {\n\t\tt = t*31 + (i%%97+1)*v\n\t}\n\treturn t\n}\n")
 			return b.String(), "f_§()", fmt.Sprintf("%d\n", t)
 		}},
 		family{name: "float-constants", limit: 1 << 14, ns: intNs, gen: func(n int) (string, string, string) {
@@ -294,9 +292,9 @@ func families(tier string) []family {
 					b.WriteString("\n\t\t")
 				}
 				fmt.Fprintf(&b, "%d.5, ", 100000+i)
-				t = (t*31 + (i%97+1)*(100000+i)) % modulus
+				t = t*31 + (i%97+1)*(100000+i)
 			}
-			fmt.Fprintf(&b, "\n\t} {\n\t\tt = (t*31 + (i%%97+1)*int(v)) %% %d\n\t}\n\treturn t\n}\n", modulus)
+			fmt.Fprintf(&b, "\n\t} {\n\t\tt = t*31 + (i%%97+1)*int(v)\n\t}\n\treturn t\n}\n")
 			return b.String(), "f_§()", fmt.Sprintf("%d\n", t)
 		}},
 	)
@@ -391,7 +389,7 @@ func spaces(tier string) []kit.Space {
 			gcIdx = append(gcIdx, ci)
 		}
 	}
-	gcFam := &goprog.Family{Name: "C20.gc", Size: uint64(len(gcIdx)), Gen: func(j uint64) goprog.Case { return cases[gcIdx[j]].program(j) }}
+	gcFam := &goprog.Family{Name: "C20.gc", Batch: 16, Size: uint64(len(gcIdx)), Gen: func(j uint64) goprog.Case { return cases[gcIdx[j]].program(j) }}
 	gcFamilyForPrefill = gcFam
 
 	source := func(ci int) []byte {
